@@ -13,7 +13,42 @@ def peersync(mode, nq, nt, pq=4, pt=12, extra=None):
     return {"name": "peersync-" + mode, "driver": "peersync", "args": ["mode=" + mode] + (extra or []),
             "n": {"quick": nq, "thorough": nt}, "procs": {"quick": pq, "thorough": pt}}
 
+def fsync(mode, nq, nt, pq=2, pt=8, extra=None):
+    return {"name": "filtersync-" + mode, "driver": "filtersync", "args": ["mode=" + mode] + (extra or []),
+            "trace_module": "Trace_FilterSync",
+            "n": {"quick": nq, "thorough": nt}, "procs": {"quick": pq, "thorough": pt}}
+
+FS_ASSUMPTIONS = COMMON_ASSUMPTIONS + [
+    "the index is read back by a raw scan of the RocksDB keyspace after every event and compared with the ground truth TLC derives from the world (Index.tla)",
+    "Golomb-coded filters may match more blocks than necessary: the specification only requires the true matches",
+    "inputs that spend cells created at or below a script's start number cannot be resolved by a light client and are neither required nor forbidden",
+]
+
 CHECKS = {
+    "C03": {
+        "trace_module": "Trace_FilterSync",
+        "mc": [],
+        "drivers": [fsync("sync", 25, 200, 3, 8), fsync("fetch", 20, 150, 2, 6), fsync("pump", 10, 60, 1, 3)],
+        "assumptions": FS_ASSUMPTIONS,
+    },
+    "C04": {
+        "trace_module": "Trace_FilterSync",
+        "mc": [],
+        "drivers": [fsync("fork", 40, 300, 4, 10), fsync("forkrand", 15, 100, 1, 4)],
+        "assumptions": FS_ASSUMPTIONS,
+    },
+    "C09": {
+        "trace_module": "Trace_FilterSync",
+        "mc": [],
+        "drivers": [fsync("scripts", 30, 250, 4, 10), fsync("sync", 10, 60, 1, 4)],
+        "assumptions": FS_ASSUMPTIONS,
+    },
+    "C16": {
+        "trace_module": "Trace_FilterSync",
+        "mc": [],
+        "drivers": [fsync("fetch", 30, 250, 3, 8), fsync("fork", 15, 100, 2, 4)],
+        "assumptions": FS_ASSUMPTIONS,
+    },
     "C15": {
         "trace_module": "Trace_PeerSync",
         "mc": [MC_PEERSYNC],
